@@ -2,5 +2,6 @@ INIT Init
 NEXT Next
 INVARIANT Canonical
 INVARIANT OracleOK
+INVARIANT AltsOK
 INVARIANT Emit
 CHECK_DEADLOCK FALSE
